@@ -122,18 +122,34 @@ def collect(ctx, sub="c01", extra=()):
             progs.pop("corpus:" + w[len("corpus/"):], None)
     return progs, feats
 
+GENERATED = ("gen:", "eff:", "wrap:", "nest:", "prog:")
+
 def evaluate(ctx, progs):
-    lines, src_lines = [], []
-    for pid, d in progs.items():
-        for st, sx in d["stages"].items():
-            (src_lines if st == "src" else lines).append(f"{pid}|{st}\t{sx}")
-    res = run_sem(ctx, lines) if lines else {}
-    if src_lines:
-        res.update(run_sem(ctx, src_lines, sub="srcsem"))
+    # generated programs are small: they run with a small fuel budget (GV_GEN_FUEL), so that a stage
+    # which no longer terminates (e.g. a dropped loop-counter update) costs a second, not minutes;
+    # a stage that runs out of fuel while the reference stage finishes is reported as a divergence
+    gen_env = {"GV_FUEL": os.environ.get("GV_GEN_FUEL", "20000")}
+    res = {}
+    for gen in (False, True):
+        lines, src_lines = [], []
+        for pid, d in progs.items():
+            if pid.startswith(GENERATED) != gen:
+                continue
+            for st, sx in d["stages"].items():
+                (src_lines if st == "src" else lines).append(f"{pid}|{st}\t{sx}")
+        env = gen_env if gen else None
+        if lines:
+            res.update(run_sem(ctx, lines, env=env))
+        if src_lines:
+            res.update(run_sem(ctx, src_lines, sub="srcsem", env=env))
     # where the Go specification leaves the capacity of a grown slice open, Go.Sem takes it as a
     # parameter: programs that append are run again under a generous growth policy
     lines2 = [f"{pid}|go\t{d['stages']['go']}" for pid, d in progs.items() if "go" in d["stages"] and "append" in d["stages"]["go"]]
-    res2 = run_sem(ctx, lines2, cap=2) if lines2 else {}
+    res2 = {}
+    for gen in (False, True):
+        part = [l for l in lines2 if l.split("|", 1)[0].startswith(GENERATED) == gen]
+        if part:
+            res2.update(run_sem(ctx, part, cap=2, env=gen_env if gen else None))
     for pid, d in progs.items():
         d["out"] = {st: res.get(f"{pid}|{st}") for st in d["stages"]}
         d["go_cap2"] = res2.get(f"{pid}|go")
@@ -199,7 +215,10 @@ def run(ctx):
             # not valid Go: whether it is accepted is C02's question; it has no Go behaviour to
             # compare, but everything before the Go back end still has
             n_invalid_go += 1
-        if any(v[0] == "fuel" for v in o.values()):
+        if o.get("core") is not None and o["core"][0] == "fuel" or (o.get("src") is not None and o["src"][0] == "fuel"):
+            # the source-side run does not finish within the fuel: nothing to compare with.  A LATER
+            # stage running out of fuel while the reference finishes is a divergence (e.g. a dropped
+            # loop-counter update) and is reported below.
             n_fuel += 1
             continue
         # source meaning: the SURFACE program under SrcSem whenever SrcSem decides; otherwise the
@@ -253,6 +272,8 @@ def run(ctx):
             n_agree += 1
         else:
             kind = "stdout-differs" if o[div][0] == ref[0] else f"ends-differently:{ref[0].split(':')[0]}->{o[div][0].split(':')[0]}"
+            if o[div][0] == "fuel":
+                kind = "does-not-terminate"
             if o[div][0].startswith("stuck"):
                 kind = "stage-output-not-executable:" + o[div][0][:60]
             blame = FRONT_END if (ref_stage == "src" and div == chain[1]) else f"the pass that produces {div}"
